@@ -16,4 +16,4 @@ Definition oneline_layout_oracle a npre d0 ms obs := prop_layout_b (ol_want a) n
 Extraction "config_model.ml" ini_handlers ini_is_async oneline_handlers oneline_is_async install_trace
   src_strip run project stderr_records stream_text spec_stdout spec_stderr spec_file prop_ini_b
   prop_oneline_b strip_sgr prop_install_b rules_text rx_text pattern_text
-  ini_layout oneline_layout ini_layout_oracle oneline_layout_oracle.
+  ini_layout oneline_layout ini_layout_oracle oneline_layout_oracle multi prop_multi_b.
